@@ -82,36 +82,97 @@ def history_prepass(ctx, repo, pid):
         ctx.ok('HIST', '%d functions reachable from the entry points: no opaque memo, no shared entry changed in place' % n_fn)
 
 
+def analyse(pid, tier, root, seed):
+    """one run of the property's rules on one tree; returns (ctx, None) or (ctx, (kind, message))"""
+    mod = load_check(pid)
+    ctx = Context(pid, tier, root, seed)
+    try:
+        repo = Repo(root)
+        history_prepass(ctx, repo, pid)
+        mod.run(ctx, repo)
+        ctx.check_floors()
+        return ctx, None
+    except AnalysisError as e:
+        return ctx, ('analysis', str(e))
+    except Exception as e:    # a traceback is an analyser failure, never a verdict
+        return ctx, ('internal', '%s: %s' % (type(e).__name__, e), traceback.format_exc())
+
+
+def reconcile(pid, tier, repo_root, seed, ctx, err):
+    """the source as written did not come out clean: decide each failing rule on the normalised views of the same program
+    (sa/views.py).  Returns (ctx to report, err)."""
+    import hashlib
+    import shutil
+    from .views import VIEWS, make_view
+    runs = [('source as written', ctx, err)]
+    seen = set()
+    for name, cf in VIEWS:
+        d, changed = make_view(repo_root, cf[0] if cf else None)
+        try:
+            if not changed:
+                continue
+            h = hashlib.sha256()
+            for rel in sorted(changed):
+                h.update(open(os.path.join(d, rel), 'rb').read())
+            if h.hexdigest() in seen:
+                continue
+            seen.add(h.hexdigest())
+            cv, ev = analyse(pid, tier, d, seed)
+            cv.repo = repo_root
+            runs.append(('view `%s` (%s)' % (name, ', '.join(changed)), cv, ev))
+        finally:
+            shutil.rmtree(d, ignore_errors=True)
+    complete = [(n, c) for n, c, e in runs if e is None]
+    if not complete:
+        return ctx, err, runs
+    pname, primary = complete[0]
+    new = split_findings(primary)[0]
+    # HIST and GEN report a construct that is there (a memo, a hazard), not a shape that is missing: a view never clears them
+    failing = sorted({f.rule for f in new} - {'HIST', 'GEN'})
+    cleared = {}
+    for r in failing:
+        for n, c in complete:
+            if c is primary:
+                continue
+            if not [f for f in split_findings(c)[0] if f.rule == r] and [o for o in c.obligations if o[0] == r and o[2]]:
+                cleared[r] = n
+                break
+    if primary is not ctx:
+        primary.info('the source as written could not be analysed (%s); the verdict is that of the %s, which computes the same thing' % (
+            err[1] if err else 'findings', pname))
+    if cleared:
+        for r, n in cleared.items():
+            primary.info('rule %s: the shape it looks for was not recognised in the %s and was recognised, and holds, in the %s' % (r, pname, n))
+        primary.findings = [f for f in primary.findings if f.rule not in cleared]
+        primary.obligations = [o for o in primary.obligations if o[2] or o[0] not in cleared]
+    primary.extra['views'] = [{'run': n, 'complete': e is None, 'new_findings': len(split_findings(c)[0])} for n, c, e in runs]
+    return primary, None, runs
+
+
 def run_check(pid, tier, repo_root, seed, replay=None, quiet=False, evidence=True):
     mod = load_check(pid)
     if mod is None:
         print('ANALYSIS-ERROR property=%s no check is built for this property' % pid)
         return 2
-    ctx = Context(pid, tier, repo_root, seed)
     level = getattr(mod, 'LEVEL', 'other')
-    try:
-        repo = Repo(repo_root)
-        history_prepass(ctx, repo, pid)
-        mod.run(ctx, repo)
-        ctx.check_floors()
-    except AnalysisError as e:
-        if split_findings(ctx)[0]:
+    ctx, err = analyse(pid, tier, repo_root, seed)
+    if err is not None or split_findings(ctx)[0]:
+        if os.environ.get('SA_NO_VIEWS') != '1':
+            try:
+                ctx, err, _ = reconcile(pid, tier, repo_root, seed, ctx, err)
+            except Exception as e:
+                ctx.info('views not built: %s: %s' % (type(e).__name__, e))
+    if err is not None:
+        if err[0] == 'analysis' and split_findings(ctx)[0]:
             # the part of the analysis that ran already found new violations; the part that could not run is reported as a note
-            ctx.info('analysis incomplete: %s' % e)
+            ctx.info('analysis incomplete: %s' % err[1])
             return finish(ctx, pid, tier, repo_root, level, replay, quiet, evidence)
-        print('ANALYSIS-ERROR property=%s %s' % (pid, e))
+        print('ANALYSIS-ERROR property=%s %s%s' % (pid, 'internal error: ' if err[0] == 'internal' else '', err[1]))
+        if err[0] == 'internal':
+            sys.stderr.write(err[2])
         try:
             if evidence:
-                write_evidence(ctx, level, [], [], 'analysis-error: %s' % e)
-        except Exception:
-            pass
-        return 2
-    except Exception as e:    # a traceback is an analyser failure, never a verdict
-        print('ANALYSIS-ERROR property=%s internal error: %s: %s' % (pid, type(e).__name__, e))
-        traceback.print_exc()
-        try:
-            if evidence:
-                write_evidence(ctx, level, [], [], 'analysis-error: internal')
+                write_evidence(ctx, level, [], [], 'analysis-error: %s' % (err[1] if err[0] == 'analysis' else 'internal'))
         except Exception:
             pass
         return 2
